@@ -327,6 +327,41 @@ func sampled(r *vproto.Rng, n int) {
 	}
 }
 
+// emptyMembers: multipolygons with EMPTY member polygons (Polygon{}, nil, a polygon of one empty ring) at random
+// positions among 1–3 real members — `Polygons()`/the member loop must neither drop, duplicate nor reorder anything the
+// caller can see (seeded g1 compacted the caller's slice when filtering empty members). Grid lines (every point asked
+// twice against three layouts, argument compared afterwards) and receiver lines (several vertices in ONE call).
+func emptyMembers(r *vproto.Rng, n int) {
+	for i := 0; i < n; i++ {
+		var m geom.MultiPolygon
+		k := 1 + r.Intn(3)
+		var last geom.Polygon
+		for j := 0; j < k; j++ {
+			for r.Chance(0.45) {
+				switch r.Intn(3) {
+				case 0:
+					m = append(m, geom.Polygon{})
+				case 1:
+					m = append(m, nil)
+				default:
+					m = append(m, poly(ring{}))
+				}
+			}
+			last = randPolygon(r, 4, 1)
+			m = append(m, last)
+		}
+		if r.Chance(0.3) {
+			m = append(m, geom.Polygon{})
+		}
+		emitGrid("mpempty", -2, 10, r.Chance(0.3), m)
+		if len(last) > 0 && len(last[0]) >= 3 {
+			vs := geom.MultiPoint{last[0][0], last[0][1], last[0][2], last[0][0]}
+			emitRecv("mpempty", vs, m)
+			emitRecv("mpempty", geom.LineString(vs), m)
+		}
+	}
+}
+
 // the sampled shapes at dyadic scales (the Rat spec is evaluated on the exact scaled values)
 func scaledShapes(r *vproto.Rng, n int) {
 	fixed := []geom.Geom{
@@ -1026,6 +1061,7 @@ func gen(seed uint64, tier string) {
 		sampled(r, 20000)
 		bigGrid(r, 1500)
 		latticeEdges(vproto.NewRng(seed+79), 1500)
+		emptyMembers(vproto.NewRng(seed+80), 1500)
 		floatCases(r, 150000, nil)
 		scaledShapes(r, 6000)
 		floatCases(r, 30000, floatScales)
@@ -1040,6 +1076,7 @@ func gen(seed uint64, tier string) {
 		sampled(r, 4000)
 		bigGrid(r, 300)
 		latticeEdges(vproto.NewRng(seed+79), 150)
+		emptyMembers(vproto.NewRng(seed+80), 150)
 		floatCases(r, 20000, nil)
 		scaledShapes(r, 1200)
 		floatCases(r, 5000, floatScales)
